@@ -966,9 +966,9 @@ class Interp:
       n = len(args[0]) if isinstance(args[0], (Arr, list, tuple)) else None
       if n is not None:
         return Arr([args[1]] * n)
-    if short in ('zeros_like', 'ones_like') and len(args) == 1 and \
-            isinstance(args[0], (Arr, list, tuple)):
-      return Arr([0 if short == 'zeros_like' else 1] * len(args[0]))
+    if short in ('zeros_like', 'ones_like', 'empty_like') and \
+            len(args) == 1 and isinstance(args[0], (Arr, list, tuple)):
+      return Arr([1 if short == 'ones_like' else 0] * len(args[0]))
     if short in ('full',) and len(args) == 2 and _is_int(args[1]):
       n = args[0][0] if isinstance(args[0], tuple) and len(args[0]) == 1 \
           else args[0]
